@@ -231,6 +231,7 @@ func init() {
 		fr.i.ctx.tags = append(fr.i.ctx.tags, args[0].(string))
 		return nil
 	})
+	reg("vrt.Tier", func(fr *frame, args []value) value { return fr.i.env.Tier })
 	reg("vrt.Harness", func(fr *frame, args []value) value { return "" })
 }
 
